@@ -138,6 +138,10 @@ pub struct Case {
     /// how the layer directories are spelled when handed to LayeredFilesystem::new (0 = canonical)
     #[serde(default)]
     pub root_style: u8,
+    /// k > 0 (and >= 2 layers): the top layer is the SAME directory as layer (k-1) mod top, i.e. the list handed to
+    /// LayeredFilesystem::new names one directory twice, e.g. [A, B, A]
+    #[serde(default)]
+    pub alias: u8,
 }
 
 /// top-down search over the snapshots: index of the top-most layer in which `path` satisfies `pred`
@@ -194,6 +198,9 @@ impl World {
         let after = self.sb.snapshots();
         let top = after.len() - 1;
         for i in 0..top {
+            if self.sb.layers[i] == self.sb.layers[top] {
+                continue; // the same directory listed twice: it IS the top layer
+            }
             if !cx.check(after[i] == self.snaps[i], "lower-layers-never-change", || {
                 let diff: Vec<&String> = after[i].keys().filter(|k| after[i].get(*k) != self.snaps[i].get(*k)).chain(self.snaps[i].keys().filter(|k| !after[i].contains_key(*k))).collect();
                 format!("{name}: layer {i} (below the top layer {top}) changed at {diff:?}")
@@ -342,7 +349,7 @@ impl Prop for C12 {
     fn rule() -> String {
         "Stateful on real directories (tmpfs sandbox, one per case): 1..=4 layers pre-populated from a tree generator over a small pool of plain components (so the same relative path occurs in several layers, as a file in one and a directory \
          in another; files with the game's compressed suffix hold reference-encoded streams, occasionally garbage), game in {FE9, FE10, FE13, FE14, FE15} x 8 languages, and a list of operations: write (payloads empty, 1..=3 bytes, compressible, incompressible, up to 8 KiB; \
-         localized or not), read, exists, file_exists, directory_exists, resolve, create_dir, write_archive+read_archive, write_text_archive+read_text_archive (also load -> set_title/delete_message -> save -> load, i.e. edits that never raise the dirty flag), a pack/arc container written as bytes and read through read_fe9_arc/read_arc, CTPK/BCH/CGFX/TPL containers read through the typed texture readers, and every typed reader applied to an arbitrary path (missing, garbage, or a file of another kind left by an earlier operation: missing => error; otherwise the same outcome as the game's codec applied to the bytes read() must return); payloads may themselves be complete compressed streams; the layer directories are handed to LayeredFilesystem::new in canonical or equivalent non-canonical spellings (trailing slash, '/.', 'X/../X'). \
+         localized or not), read, exists, file_exists, directory_exists, resolve, create_dir, write_archive+read_archive, write_text_archive+read_text_archive (also load -> set_title/delete_message -> save -> load, i.e. edits that never raise the dirty flag), a pack/arc container written as bytes and read through read_fe9_arc/read_arc, CTPK/BCH/CGFX/TPL containers read through the typed texture readers, and every typed reader applied to an arbitrary path (missing, garbage, or a file of another kind left by an earlier operation: missing => error; otherwise the same outcome as the game's codec applied to the bytes read() must return); payloads may themselves be complete compressed streams; the layer directories are handed to LayeredFilesystem::new in canonical or equivalent non-canonical spellings (trailing slash, '/.', 'X/../X'), in 1 case of 13 with one directory named twice (as the top layer and as a lower one, e.g. [A, B, A]); later operations of a history go through clones of the filesystem object. \
          Oracle: every layer directory is walked (std::fs) before and after each call. read = bytes of the top-most layer holding the (localised) path as a regular file, expanded by the reference LZ decoder when the requested name has the compressed suffix, else an error; \
          write Ok => all lower layers byte-identical, the top layer changes only at the target and its new parent directories, the stored bytes equal the payload or are a stream the reference reader accepts (LZ10 for FE9/10, 0x13-wrapped LZ11 for FE13-15) expanding to it, and an immediate read returns the payload; \
          write must succeed when the top layer has no file/directory conflict on the path; existence queries and resolve equal the same top-down search; typed helpers equal the byte-level call composed with the game's codec (checked by decoding the stored file with the reference bin reader: endianness, text encoding, compression). \
@@ -361,8 +368,8 @@ impl Prop for C12 {
     }
     fn strategy(tier: Tier) -> BoxedStrategy<Case> {
         let max_ops = tier.pick(15usize, 40);
-        (0u8..5, 0u8..8, proptest::collection::vec(layer_strategy(), 1..=4), proptest::collection::vec(op_strategy(), 1..=max_ops), prop_oneof![3 => Just(0u8), 1 => any::<u8>()])
-            .prop_map(|(game, language, layers, ops, root_style)| Case { game, language, layers, ops, root_style })
+        (0u8..5, 0u8..8, proptest::collection::vec(layer_strategy(), 1..=4), proptest::collection::vec(op_strategy(), 1..=max_ops), prop_oneof![3 => Just(0u8), 1 => any::<u8>()], prop_oneof![12 => Just(0u8), 1 => 1u8..=3])
+            .prop_map(|(game, language, layers, ops, root_style, alias)| Case { game, language, layers, ops, root_style, alias })
             .boxed()
     }
     fn enumerate(_tier: Tier, shard: u64, nshards: u64, f: &mut dyn FnMut(Case) -> bool) {
@@ -407,7 +414,7 @@ impl Prop for C12 {
                             Op::Write { path: "data/readme/inner.bin".into(), payload: Payload::Raw(vec![1]), localized: false },
                         ],
                     };
-                    if !f(Case { game, language, layers: vec![lower, vec![], vec![]], ops, root_style: variant as u8 + language }) {
+                    if !f(Case { game, language, layers: vec![lower, vec![], vec![]], ops, root_style: variant as u8 + language, alias: if language % 4 == 3 { 1 } else { 0 } }) {
                         return;
                     }
                 }
@@ -433,7 +440,12 @@ impl Prop for C12 {
         let game = GAMES[case.game as usize % 5];
         let lang = LANGS[case.language as usize % 8];
         let nlayers = case.layers.len().clamp(1, 4);
-        let sb = Sandbox::new(nlayers);
+        let mut sb = Sandbox::new(nlayers);
+        if case.alias > 0 && nlayers >= 2 {
+            let top = nlayers - 1;
+            sb.layers[top] = sb.layers[(case.alias as usize - 1) % top].clone();
+            cx.label(if nlayers >= 3 && (case.alias as usize - 1) % top != top - 1 { "one-directory-as-top-and-lower-layer-with-another-between" } else { "one-directory-as-top-and-lower-layer" });
+        }
         populate(&sb, game, &case.layers[..nlayers]);
         let given: Vec<String> = sb.layers.iter().enumerate().map(|(i, l)| decorate(l, case.root_style.wrapping_add(i as u8 * (case.root_style % 3)))).collect();
         let fs = match cx.call(|| LayeredFilesystem::new(given.clone(), lang, game)) {
